@@ -2,9 +2,9 @@ SPECIFICATION SSpec
 CONSTANTS
   Repaired = TRUE
   MaxStyles = 3
-  Depth = 4
-  OwnFields <- MCOwn
-  BorderFields <- MCBorder
+  Depth = 3
+  OwnFields <- MCOwnAll
+  BorderFields <- MCBorderAll
   Values <- MCValues
 INVARIANT TypeOK
 INVARIANT NoAliasing
